@@ -235,6 +235,10 @@ func (p *Parser) ParseRemainingExpressionWithPrecedence(left ast.Expression, pre
 				return left
 			}
 		}
+		// restricted production: `++`/`--` on a new line is not a postfix operator of the previous expression
+		if p.PeekToken.AfterNewline && (p.PeekToken.Type == token.INCREMENT || p.PeekToken.Type == token.DECREMENT) {
+			return left
+		}
 		left = p.ParseInfixExpression(left)
 	}
 	return left
